@@ -22,7 +22,7 @@
 From Sessions Require Import Model.Base Model.Sess Model.Hist Model.Corr Proofs.SessDefs
   Proofs.HistInv Proofs.HistInv2 Proofs.HistInv3 Proofs.HistLift3 Proofs.HistLift4 Proofs.IsoLaws Proofs.DeadLaws
   Proofs.Lineage Proofs.Lineage2 Proofs.Lineage3 Proofs.Lineage4 Proofs.Lineage5 Proofs.LineageEx
-  Proofs.LineageK Proofs.LineageK2 Proofs.LineageK3 Proofs.LineageK4.
+  Proofs.LineageK Proofs.LineageK2 Proofs.LineageK3 Proofs.LineageK4 Proofs.LineageF.
 From Coq Require Import Lia.
 
 Definition lk_rq (c : N) (p : present) (cr : bool) (sc : list sop) (crash : option nat) : reqstep :=
@@ -296,3 +296,50 @@ Proof.
   destruct (mid_crash_store lk_D lx_w1 (lk_other (Some n)) n lk_D_LN eq_refl Hev) as [A B].
   split; [exact A | exact (B k Hk)].
 Qed.
+
+(* ------------------------------------------------ the full theorem applied (LineageF.v)
+
+   A continuation whose crashes cut off writes: client 3's step with three ID
+   changes stops after 3 of its 7 persistence calls (between the two saves of
+   RegenerateID); a request presenting former ID 2 with createIfNew, which creates
+   a session and changes its ID, stops after 2 of 5; client 3 comes back and its
+   step stops after 4 calls; the former IDs are presented in between and at the
+   end, after a wait beyond the backstop age. *)
+Definition lk_h4 : list hop :=
+  [HReq (lk_other (Some 3)); lx_forge 0 false; lx_forge 1 true;
+   HReq (lk_former1 (Some 2)); lx_forge 2 true; lx_forge 0 true;
+   HReq (lk_other (Some 4)); HDropCache; lx_forge 1 false; HWait 200; lx_forge 0 false; lx_forge 1 true; lx_forge 2 false].
+
+Lemma lk_ff4 : Forall ff_hop lk_h4.
+Proof. repeat constructor. Qed.
+
+(* these crashes are not late: they cut off saves *)
+Example lk_h4_not_late : ~ late_hist lx_w1 lk_h4.
+Proof. intros [H _]. vm_compute in H. discriminate H. Qed.
+
+Example lk_any_theorem :
+  all_steps (lin_claim_k (lineage (w_st lx_w1) (KGen 2))) lx_w1 lk_h4.
+Proof.
+  destruct lx_ff1 as [F1 C1].
+  destruct lx_destroyed_hyps as (Hpl & Hcr & Hne & Hn & Hfin).
+  destruct (destroyed_lineage_any lx_cfg lx_h1 lx_end lk_h4 F1 Hpl Hcr lk_ff4 Hne Hn) as (kn & rc & A1 & _ & _ & A4).
+  rewrite Hfin in A1. injection A1 as <- _. unfold lx_w1, lx_w0. exact A4.
+Qed.
+
+Example lk_any_answers :
+  map (fun o => (ob_res o, option_map fst (ob_start o), ob_cookies o, map fst (ob_store o), ob_drawn o))
+      (run_from lx_w1 lk_h4) =
+  [(RCrashed, None, [], [KGen 0; KGen 1; KGen 3; KGen 4], 5%N);
+   (RErr ERefMissing, None, [], [KGen 0; KGen 1; KGen 3; KGen 4], 5%N);
+   (RErr ERefMissing, None, [], [KGen 0; KGen 1; KGen 3; KGen 4], 5%N);
+   (RCrashed, None, [], [KGen 0; KGen 1; KGen 3; KGen 4; KGen 5], 6%N);
+   (RSess, Some (KGen 6), [CkDelete; CkLive (KGen 6)], [KGen 0; KGen 1; KGen 3; KGen 4; KGen 5; KGen 6], 7%N);
+   (RErr ERefMissing, None, [], [KGen 0; KGen 1; KGen 3; KGen 4; KGen 5; KGen 6], 7%N);
+   (RCrashed, None, [], [KGen 0; KGen 1; KGen 3; KGen 4; KGen 5; KGen 6; KGen 7; KGen 8], 9%N);
+   (RVoid, None, [], [KGen 0; KGen 1; KGen 3; KGen 4; KGen 5; KGen 6; KGen 7; KGen 8], 9%N);
+   (RErr ERefMissing, None, [], [KGen 0; KGen 1; KGen 3; KGen 4; KGen 5; KGen 6; KGen 7; KGen 8], 9%N);
+   (RVoid, None, [], [KGen 0; KGen 1; KGen 3; KGen 4; KGen 5; KGen 6; KGen 7; KGen 8], 9%N);
+   (RErr EExpiredID, None, [], [KGen 1; KGen 3; KGen 4; KGen 5; KGen 6; KGen 7; KGen 8], 9%N);
+   (RErr EExpiredID, None, [], [KGen 3; KGen 4; KGen 5; KGen 6; KGen 7; KGen 8], 9%N);
+   (RNone, None, [CkDelete], [KGen 3; KGen 4; KGen 5; KGen 6; KGen 7; KGen 8], 9%N)].
+Proof. vm_compute. reflexivity. Qed.
